@@ -349,6 +349,27 @@ def preSave (o : CaObjects) (evs : List ObjEvent) (now : Nat) (t : Timing) (ins 
     Option CaObjects :=
   (applyEvents t o evs).map fun (o', force) => (reIssue o' force now t ins).1
 
+/-- Events for which `TaskQueue::schedule_for_ca_event` queues `SyncRepo` (mq.rs:441-514). -/
+def schedulesSync : ObjEvent → Bool
+  | .roasUpdated .. | .aspasUpdated .. | .bgpsecUpdated .. | .certsUpdated ..
+  | .keyPendingToActive .. | .keyPendingToNew .. | .keyRollActivated .. | .keyRollFinished ..
+  | .resourceClassRemoved .. => true
+  | _ => false
+
+/-- `CertAuth::pre_save_events`: the object store's listener, then the task queue's; a repository
+sync is queued if an event asks for it *or the listener re-issued* (the latter since the fix of
+finding F-C14-2).  Returns the new objects and whether a `SyncRepo` task is queued. -/
+def preSaveSync (o : CaObjects) (evs : List ObjEvent) (now : Nat) (t : Timing) (ins : IssueInputs) :
+    Option (CaObjects × Bool) :=
+  (applyEvents t o evs).map fun (o', force) =>
+    let r := reIssue o' force now t ins
+    (r.1, evs.any schedulesSync || r.2)
+
+/-- Counter-model pinned to the behaviour before the fix: only events queue the sync. -/
+def pinnedPreSaveSync (o : CaObjects) (evs : List ObjEvent) (now : Nat) (t : Timing) (ins : IssueInputs) :
+    Option (CaObjects × Bool) :=
+  (applyEvents t o evs).map fun (o', force) => ((reIssue o' force now t ins).1, evs.any schedulesSync)
+
 /-- `CaObjectsStore::reissue_if_needed` (one CA of `republish_all`). -/
 def reissueIfNeeded (o : CaObjects) (force : Bool) (now : Nat) (t : Timing) (ins : IssueInputs) :
     CaObjects × Bool :=
@@ -463,15 +484,17 @@ inductive RevokeOut where
   | revoked (myRcn key : Nat)
 deriving DecidableEq, Repr, Inhabited
 
-/-- The decision as the code takes it: the class-name test comes *before* the translation. -/
+/-- The decision as the code takes it (since fix 43d7eca0 of finding F-C03-1): the child's class
+name is translated first, then the class is looked up. -/
 def processChildRevokeKey (resources : List Nat) (c : ChildM) (childRcn key : Nat) : RevokeOut :=
-  if childRcn ∉ resources then .ignored
+  if c.parentNameForRcn childRcn ∉ resources then .ignored
   else if !c.isIssued key then .error
   else .revoked (c.parentNameForRcn childRcn) key
 
-/-- The repaired decision (proposed fix for F-C03-1): translate the class name first, then test. -/
-def processChildRevokeKeyFixed (resources : List Nat) (c : ChildM) (childRcn key : Nat) : RevokeOut :=
-  if c.parentNameForRcn childRcn ∉ resources then .ignored
+/-- Counter-model pinned to the behaviour before the fix: the class-name test came *before* the
+translation. -/
+def pinnedProcessChildRevokeKey (resources : List Nat) (c : ChildM) (childRcn key : Nat) : RevokeOut :=
+  if childRcn ∉ resources then .ignored
   else if !c.isIssued key then .error
   else .revoked (c.parentNameForRcn childRcn) key
 
